@@ -491,6 +491,57 @@ class IMAPClient:
 
     ####################################################################
     #
+    async def read_line(self) -> bytes | None:
+        """
+        Read up to and including the line terminator, whatever the stream
+        reader's buffer limit is. Returns None (after consuming the line) when
+        the line is longer than MAX_INPUT_SIZE.
+        """
+        parts: list[bytes] = []
+        size = 0
+        while True:
+            try:
+                parts.append(await self.reader.readuntil(self.LINE_TERMINATOR))
+                break
+            except asyncio.LimitOverrunError as exc:
+                part = await self.reader.readexactly(exc.consumed)
+                size += len(part)
+                if size > MAX_INPUT_SIZE + 2:
+                    parts = []
+                else:
+                    parts.append(part)
+        if size > MAX_INPUT_SIZE + 2:
+            return None
+        return b"".join(parts)
+
+    ####################################################################
+    #
+    async def discard(self, count: int) -> None:
+        """Read and drop `count` octets."""
+        while count > 0:
+            data = await self.reader.read(min(count, 65536))
+            if not data:
+                raise asyncio.IncompleteReadError(b"", count)
+            count -= len(data)
+
+    ####################################################################
+    #
+    async def discard_rest_of_command(self) -> None:
+        """
+        After a command has been refused while non-synchronizing literals are
+        in flight: drop the rest of it, through its final line terminator.
+        """
+        while True:
+            line = await self.read_line()
+            if line is None:
+                return
+            m = RE_LITERAL_STRING_START.search(line.rstrip())
+            if not m or not m.group(2):
+                return
+            await self.discard(int(m.group(1)))
+
+    ####################################################################
+    #
     async def start(self) -> None:
         """
         Entry point for the asyncio task for handling the network
@@ -513,8 +564,15 @@ class IMAPClient:
                 # Read until b'\r\n'. Trim off the '\r\n'. If the message is
                 # not of 0 length then append it to our incremental buffer.
                 #
-                msg = await self.reader.readuntil(self.LINE_TERMINATOR)
-                msg = msg.rstrip()
+                line = await self.read_line()
+                if line is None:
+                    await self.push(
+                        b"* BAD command exceeds maximum allowed size\r\n"
+                    )
+                    self.ibuffer = []
+                    self.ibuffer_size = 0
+                    continue
+                msg = line.rstrip()
                 if msg:
                     self.ibuffer.append(msg)
                     self.ibuffer_size += len(msg)
@@ -552,10 +610,13 @@ class IMAPClient:
                         )
                         self.ibuffer = []
                         self.ibuffer_size = 0
-                        # Drain the line terminator that follows the
-                        # literal declaration so we stay in sync.
+                        # A synchronizing literal is not sent without our
+                        # go-ahead: the command is over. A non-synchronizing
+                        # one is on its way with the rest of the command.
                         #
-                        await self.reader.readuntil(self.LINE_TERMINATOR)
+                        if m.group(2):
+                            await self.discard(literal_str_length)
+                            await self.discard_rest_of_command()
                         continue
 
                     # If this is a synchronizing string literal (does not have
@@ -594,6 +655,7 @@ class IMAPClient:
                         )
                         self.ibuffer = []
                         self.ibuffer_size = 0
+                        await self.discard_rest_of_command()
                         continue
 
                     # Loop back to read what is either a b'\r\n' or maybe
